@@ -11,13 +11,15 @@ VARIABLES hist, fin
 GenInit == Init /\ hist = <<[act |-> "init", disk |-> disk]>> /\ fin = FALSE
 \* COMMIT and ROLLBACK get weight (several copies distinguished by k) so that procedures cross several
 \* transaction boundaries; failing statements are generated only near the end (they end the run)
-ScriptActions == {a \in GenActs : a.act \notin {"env", "disk", "selectpath", "insertpath"}}   \* (path spellings need the directory: in-process runs only)
+\* (a commit of another process is an external command of the procedure: generated where the configuration has an
+\* environment, and only where it succeeds - a failing command would end the run)
+ScriptActions == {a \in GenActs : a.act \notin {"disk", "selectpath", "insertpath"} /\ (a.act = "env" => WithEnv)}   \* (path spellings need the directory: in-process runs only)
                  \cup {A(x, "", w, 0) : x \in {"commit", "rollback"}, w \in 1..Weight}
                  \cup {A("select", t, w, 0) : t \in Tables, w \in 1..2}
 GenNext ==
   \/ /\ ~fin /\ ~ended /\ Len(hist) <= Depth
      /\ \E a \in ScriptActions : /\ Do(a)
-                                  /\ (out'.k # "err" \/ Len(hist) >= ErrFrom)
+                                  /\ (out'.k # "err" \/ (Len(hist) >= ErrFrom /\ a.act # "env"))
                                   /\ hist' = Append(hist, [a |-> a, exp |-> out']) /\ UNCHANGED fin
   \/ /\ ~fin /\ (ended \/ Len(hist) >= Depth - 3)
      \* a normal end commits; if that COMMIT fails the run has ended by an error after all
